@@ -50,6 +50,11 @@ func (f *FIXUTCTimestamp) Read(bytes []byte) (err error) {
 		return errors.New("Invalid Value for Timestamp: " + string(bytes))
 	}
 
+	// time.Parse also accepts a sign in front of the fraction digits ("05.+12", "05.-00"), FIX does not.
+	if len(bytes) > 18 && !isDecimal(bytes[18]) {
+		return errors.New("Invalid Value for Timestamp: " + string(bytes))
+	}
+
 	switch len(bytes) {
 	// Seconds.
 	case 17:
